@@ -307,10 +307,18 @@ type syHProg struct {
 	N    int
 	Code int
 	Seed int64
+	// Conc != 0: a CONCURRENT handler: a receiver goroutine loops in RecvMsg (own gate 1000+k) while the handler's
+	// main goroutine sends N fresh messages; 1 = push-while-receiving (then waits for the receiver to see the end of
+	// the caller's messages and returns), 2 = return-while-receiving (returns without waiting for the receiver)
+	Conc int
 }
 
 func (p syHProg) String() string {
 	switch {
+	case p.Conc == 1:
+		return fmt.Sprintf("push-while-receiving(%d)", p.N)
+	case p.Conc == 2:
+		return fmt.Sprintf("return-while-receiving(%d)", p.N)
 	case p.Echo && p.Ping:
 		return "echo"
 	case p.Echo:
@@ -389,6 +397,7 @@ type syRig struct {
 	threads []*syThread
 	streams map[int]grpc.ClientStream
 	nextC   int64
+	dumpWait bool // quiescence by goroutine dumps only (a concurrent handler may leave a goroutine waiting for a mutex)
 	armed   map[string]*syThread
 	yieldF  func(pt string) // free-running yield policy
 	active  atomic.Int64    // stream handlers entered and not yet returned
@@ -598,6 +607,43 @@ func (r *syRig) streamH(si int, s grpc.ServerStream) error {
 		r.hist.add(fmt.Sprintf("HRet %d %d", k, code))
 		if code != 0 {
 			return status.Error(codes.Code(code), fmt.Sprintf("m%d", code))
+		}
+		return nil
+	}
+	if p.Conc != 0 {
+		rdone := make(chan struct{})
+		var returned atomic.Bool
+		go func() { // the handler's receiver goroutine
+			defer close(rdone)
+			for {
+				r.gate(r.sgates, 1000+k)
+				if returned.Load() {
+					return // the handler function has returned: the stream must not be used any more
+				}
+				r.hist.add(fmt.Sprintf("HRecvS %d", k))
+				var m wrapperspb.BytesValue
+				err := s.RecvMsg(&m)
+				r.hist.add(fmt.Sprintf("HRecvR %d %s", k, syRes(err, m.Value)))
+				r.hrecvs.Add(1)
+				if err != nil {
+					return
+				}
+			}
+		}()
+		for i := 0; i < p.N; i++ {
+			if err := send(syFresh(p.Seed, k, i)); err != nil {
+				returned.Store(true)
+				return ret(0, err)
+			}
+		}
+		if p.Conc == 1 {
+			<-rdone
+		}
+		r.gate(r.sgates, k)
+		returned.Store(true)
+		r.hist.add(fmt.Sprintf("HRet %d %d", k, p.Code))
+		if p.Code != 0 {
+			return status.Error(codes.Code(p.Code), fmt.Sprintf("m%d", p.Code))
 		}
 		return nil
 	}
@@ -930,7 +976,7 @@ type syStep struct {
 // and quiescence is detected from the goroutine dump instead (durably blocked or waiting for a mutex).
 func (r *syRig) wait() {
 	backlog := r.c2sDelivQ.Load() - r.hrecvs.Load()
-	if backlog < 2 {
+	if backlog < 2 && !r.dumpWait {
 		synctest.Wait()
 		syLastDump = "synctest.Wait"
 		return
@@ -1025,12 +1071,9 @@ func (r *syRig) runSchedule(choose func(step int, en []syAct) int, maxSteps int)
 	if len(steps) > 0 {
 		steps[len(steps)-1].evs = r.hist.since(last)
 	}
-	complete = len(r.enabled()) == 0 && r.active.Load() == 0
-	for _, th := range r.threads {
-		if th.busy.Load() || th.pc < len(th.prog) {
-			complete = false
-		}
-	}
+	// complete: the schedule ran until no action was enabled; whatever is still pending then (a busy thread, a
+	// running handler) can never finish and is judged by the spec ("an operation never returned")
+	complete = len(r.enabled()) == 0
 	return
 }
 
